@@ -132,6 +132,18 @@ Proof.
   rewrite Hv in H. apply val_eqb_eq in H. rewrite H. symmetry. apply construct; assumption.
 Qed.
 
+Theorem month_names_lastday : forall y s k s', -4712 <= y <= 6000 ->
+  In (s, k) month_names -> In s' (spellings s) -> valid y k (mlen y k) = true ->
+  mkEpoch [VInt y; VStr s'; VInt (mlen y k)] = mkEpoch [VInt y; VInt k; VInt (mlen y k)].
+Proof.
+  intros y s k s' Hy Hin Hs Hv. pose proof (all_years y Hy) as H. unfold chk_year in H.
+  apply andb_true_iff in H. destruct H as [_ H]. unfold chk_names in H.
+  rewrite forallb_forall in H. specialize (H _ Hin). cbv beta in H.
+  rewrite forallb_forall in H. specialize (H _ Hs). cbv beta in H.
+  apply andb_true_iff in H. destruct H as [_ H]. unfold chk_name_on in H. simpl fst in H; simpl snd in H.
+  rewrite Hv in H. apply val_eqb_eq in H. rewrite H. symmetry. apply construct; assumption.
+Qed.
+
 Theorem step_one : forall n, 0 <= n < 3913000 -> (jde_of (n + 1) - jde_of n)%float = 1%float.
 Proof.
   intros n Hn. apply feq_eq. apply (all_range_spec _ _ _ C01_step.steps). lia.
